@@ -230,12 +230,17 @@ pub fn model_apply(m: &mut DModel, op: &Op) {
 }
 
 /// Apply an operation to the live object.  `early` handles are used for field edits when given.
-pub fn live_apply(l: &mut Live, early: Option<&mut Vec<Paragraph>>, op: &Op) -> Result<Option<bool>, String> {
-    let mut handle = |l: &Live, p: usize| -> Result<Paragraph, String> {
-        match &early {
-            Some(e) => e.get(p).and_then(|h| <Paragraph as AstNode>::cast(h.syntax().clone())).ok_or("no such early handle".to_string()),
-            None => l.para(p).ok_or("no such paragraph".to_string()),
+pub fn live_apply(l: &mut Live, early: Option<(&Vec<Paragraph>, &Vec<Option<usize>>)>, op: &Op) -> Result<Option<bool>, String> {
+    // field edits go through the handle taken before the first operation when there is one for that paragraph
+    // (paragraph-level operations shift the correspondence: `map` says which model paragraph each early handle stands for)
+    let handle = |l: &Live, p: usize| -> Result<Paragraph, String> {
+        if let Some((e, map)) = &early {
+            let h = if map.is_empty() { if p < e.len() { Some(p) } else { None } } else { map.iter().position(|m| *m == Some(p)) };
+            if let Some(h) = h {
+                return e.get(h).and_then(|h| <Paragraph as AstNode>::cast(h.syntax().clone())).ok_or("no such early handle".to_string());
+            }
         }
+        l.para(p).ok_or("no such paragraph".to_string())
     };
     match op {
         Op::Set(p, k, v) => handle(l, *p)?.set(k, v),
@@ -342,7 +347,7 @@ pub fn check_edit(c: &EditCase, st: &mut Stats, pid: &str) -> Vec<Viol> {
         let Some((mut live, mut model)) = Live::build(&c.init) else {
             return Err("initial state not constructible".into());
         };
-        let mut early: Vec<Paragraph> = (0..model.len()).filter_map(|i| live.para(i)).collect();
+        let early: Vec<Paragraph> = (0..model.len()).filter_map(|i| live.para(i)).collect();
         // which model paragraph each early handle stands for (paragraph-level operations shift or drop them)
         let mut early_map: Vec<Option<usize>> = if early.len() == model.len() { (0..early.len()).map(Some).collect() } else { vec![] };
         let remap = |map: &mut Vec<Option<usize>>, op: &Op, len_before: usize| match op {
@@ -371,7 +376,7 @@ pub fn check_edit(c: &EditCase, st: &mut Stats, pid: &str) -> Vec<Viol> {
             return Ok((out, Some(key_of(&live, &model, &early, c.early))));
         }
         for op in &c.ops[..n - 1] {
-            live_apply(&mut live, if c.early { Some(&mut early) } else { None }, op)?;
+            live_apply(&mut live, if c.early { Some((&early, &early_map)) } else { None }, op)?;
             remap(&mut early_map, op, model.len());
             model_apply(&mut model, op);
         }
@@ -382,7 +387,7 @@ pub fn check_edit(c: &EditCase, st: &mut Stats, pid: &str) -> Vec<Viol> {
             Op::RemovePara(i) => live.para(*i).map(|p| p.to_string()),
             _ => None,
         };
-        let returned = live_apply(&mut live, if c.early { Some(&mut early) } else { None }, op)?;
+        let returned = live_apply(&mut live, if c.early { Some((&early, &early_map)) } else { None }, op)?;
         remap(&mut early_map, op, model.len());
         model_apply(&mut model, op);
         let after = live.text();
